@@ -103,6 +103,15 @@ def add(ro, msg, via='add'):
                 warnings.simplefilter('ignore')
                 back = MosFile.from_string(str(ro))
             out['reread'] = {'cls': type(back).__name__, 'completed': bool(back.completed)}
+            if out['reread'] == {'cls': 'RunningOrder', 'completed': True}:
+                # the written-out and re-read running order refuses further messages like the original
+                before = treejson.to_tree(back.xml)
+                try:
+                    back + msg
+                    rerr = None
+                except Exception as e:  # noqa: BLE001
+                    rerr = err_name(e)
+                out['reread']['refuses'] = [rerr, treejson.to_tree(back.xml) == before]
         except Exception as e:  # noqa: BLE001
             out['reread'] = {'err': err_name(e)}
     return out
